@@ -53,39 +53,40 @@ Proof. intros t. rewrite outermost_decl_eq. apply outermost_nil_iff. Qed.
 Theorem early_return_none : forall t first_only fuel, find_errors false fuel t first_only = Ok [].
 Proof. reflexivity. Qed.
 
-(* display never panics on well-formed position data (byte range ordered, both ends on character
+(* [kt] = the wording of the two kinds (any two phrases: the property does not constrain it).
+   display never panics on well-formed position data (byte range ordered, both ends on character
    boundaries of the source); the plain text is path:row+1:col+1: kind, then "\n" for an empty range
    and ": " + the node's text up to its first newline otherwise *)
-Theorem display_total : forall path src k p, wf_pos src p = true ->
+Theorem display_total : forall kt path src k p, wf_pos src p = true ->
   (exists txt, (range_is_empty p = false -> slice_bytes 1 src (np_start p) (np_end p) = Ok txt) /\
-               display_plain path src k p =
-                 Ok (cite path (np_row p) (np_col p) ++ [32] ++ kind_text k ++
+               display_plain kt path src k p =
+                 Ok (cite path (np_row p) (np_col p) ++ [32] ++ kt k ++
                      (if range_is_empty p then [10] else [58; 32] ++ until_nl txt))) /\
-  (exists s, display_pretty path src k p = Ok s).
+  (exists s, display_pretty kt path src k p = Ok s).
 Proof.
-  intros path src k p Hwf. split.
-  - exact (display_plain_lemma path src k p Hwf).
-  - exact (display_pretty_lemma path src k p Hwf).
+  intros kt path src k p Hwf. split.
+  - exact (display_plain_lemma kt path src k p Hwf).
+  - exact (display_pretty_lemma kt path src k p Hwf).
 Qed.
 
 (* the plain display starts with "path:row+1:col+1:" *)
-Theorem display_cites : forall path src k p s,
-  display_plain path src k p = Ok s ->
+Theorem display_cites : forall kt path src k p s,
+  display_plain kt path src k p = Ok s ->
   is_prefix (path ++ [58] ++ dec (np_row p + 1) ++ [58] ++ dec (np_col p + 1) ++ [58]) s = true.
 Proof. exact display_plain_cites_lemma. Qed.
 
 (* the pretty display contains "path:row+1:col+1:" for EVERY node, zero-width (MISSING) ones included *)
-Theorem display_pretty_cites : forall path src k p s,
-  display_pretty path src k p = Ok s ->
+Theorem display_pretty_cites : forall kt path src k p s,
+  display_pretty kt path src k p = Ok s ->
   contains (path ++ [58] ++ dec (np_row p + 1) ++ [58] ++ dec (np_col p + 1) ++ [58]) s = true.
 Proof. exact display_pretty_cites_lemma. Qed.
 
 (* what a zero-width node (every MISSING node) gets: the kind line and the excerpt with the empty
    column range col..col (location header, source line, caret line without carets) *)
-Theorem display_pretty_zero_width : forall path src k p,
+Theorem display_pretty_zero_width : forall kt path src k p,
   wf_pos src p = true -> np_start p = np_end p ->
-  display_pretty path src k p =
-    Ok ((kind_text k ++ [10]) ++ excerpt path src (np_row p) (np_col p) (np_col p)).
+  display_pretty kt path src k p =
+    Ok ((kt k ++ [10]) ++ excerpt path src (np_row p) (np_col p) (np_col p)).
 Proof. exact display_pretty_zero_width_lemma. Qed.
 
 (* `dec` really is the decimal numeral: reading the digits back gives the number *)
@@ -132,23 +133,23 @@ Proof. vm_compute. repeat split; reflexivity. Qed.
 
 Example c18_display_example :
   (* "t.py:2:3: unexpected syntax: $ y" *)
-  display_plain [116;46;112;121] ex_src KUnexpected ex_pos =
+  display_plain kind_text [116;46;112;121] ex_src KUnexpected ex_pos =
     Ok [116;46;112;121;58;50;58;51;58;32;117;110;101;120;112;101;99;116;101;100;32;115;121;110;116;97;120;58;32;36;32;121]
   (* "unexpected syntax\nt.py:2:3:\n2 |   $ y\n  |   ^^^\n" *)
-  /\ display_pretty [116;46;112;121] ex_src KUnexpected ex_pos =
+  /\ display_pretty kind_text [116;46;112;121] ex_src KUnexpected ex_pos =
     Ok ([117;110;101;120;112;101;99;116;101;100;32;115;121;110;116;97;120;10]
         ++ [116;46;112;121;58;50;58;51;58;10]
         ++ [50;32;124;32;32;32;36;32;121;10]
         ++ [32;32;124;32;32;32;94;94;94;10])
   (* "t.py:2:3: missing syntax\n"  and  "missing syntax\nt.py:2:3:\n2 |   $ y\n  |   \n" *)
-  /\ display_plain [116;46;112;121] ex_src KMissing ex_pos_empty =
+  /\ display_plain kind_text [116;46;112;121] ex_src KMissing ex_pos_empty =
     Ok [116;46;112;121;58;50;58;51;58;32;109;105;115;115;105;110;103;32;115;121;110;116;97;120;10]
-  /\ display_pretty [116;46;112;121] ex_src KMissing ex_pos_empty =
+  /\ display_pretty kind_text [116;46;112;121] ex_src KMissing ex_pos_empty =
     Ok ([109;105;115;115;105;110;103;32;115;121;110;116;97;120;10]
         ++ [116;46;112;121;58;50;58;51;58;10]
         ++ [50;32;124;32;32;32;36;32;121;10]
         ++ [32;32;124;32;32;32;10])
   (* slicing inside a character is a panic in the model, as in Rust *)
-  /\ display_plain [116;46;112;121] ex_src KUnexpected ex_pos_bad = Panic 1
-  /\ display_pretty [116;46;112;121] ex_src KUnexpected ex_pos_bad = Panic 3.
+  /\ display_plain kind_text [116;46;112;121] ex_src KUnexpected ex_pos_bad = Panic 1
+  /\ display_pretty kind_text [116;46;112;121] ex_src KUnexpected ex_pos_bad = Panic 3.
 Proof. vm_compute. repeat split; reflexivity. Qed.
